@@ -29,7 +29,10 @@ RULE = ('cases = (instance, quantity, unit, T shape, P, x, S_elements, use_refer
         'repeats its call after overwriting the first result, compares its arguments with a copy taken before, '
         'and (array T) edits the array in place and calls again; plus two-object histories '
         '(how, A, B, quantity, form, unit): A, B, A again, then A.elements edited in place - B a separately '
-        'built object, a deepcopy or a to_dict/from_dict copy edited after creation')
+        'built object, a deepcopy or a to_dict/from_dict copy edited after creation; plus a unit sweep: every '
+        'wrapper x T shape x (no option | single option) x every unit string that some instance STORES '
+        '(Shomate.units: J/mol/K, kJ/mol/K, cal/mol/K, eV/K) and one per-mass unit, so that each object is asked '
+        'in exactly its own stored unit and in the others, with every option')
 ASSUMPTIONS = ['the gas constant and the mass conversion factors are read from pmutt.constants (their accuracy '
                'is property C12); the reference combines them independently of pmutt._get_R_adj; only the RATIO '
                'between two table entries is also compared with SI conversion factors (pmc/ref/c04_units.py, 1e-7)',
@@ -74,7 +77,9 @@ INSTANCES = {
              'GasPressureAdj'],
     'species': ['sm_gas', 'sm_ads', 'sm_ref', 'sm_cov', 'sm_noel', 'sm_const', 'sm_int'],
     'empirical': ['nasa_gas', 'nasa_surf', 'nasa_noel', 'nasa9_gas', 'shomate_gas', 'shomate_surf',
-                  'nasa_plain', 'nasa9_plain', 'shomate_plain', 'shomate_int'],
+                  'nasa_plain', 'nasa9_plain', 'shomate_plain', 'shomate_int',
+                  # objects that STORE a unit string other than the library default (Shomate.units)
+                  'shomate_kJ', 'shomate_cal_surf', 'shomate_eV'],
     'reaction': ['rxn_sm_ts', 'rxn_sm', 'rxn_nasa', 'rxn_mixed', 'rxn_bep', 'chemkin_ts', 'chemkin',
                  'surf_ts', 'surf', 'chemkin_ts_low', 'surf_ts_low', 'rxn_int_ts'],
 }
@@ -117,6 +122,24 @@ def _alts(kind):
 
 
 DEVIATIONS = {'quick': 3, 'thorough': 5}
+
+# ---- unit strings that an object STORES (third round of seeded changes).  Shomate keeps the unit its
+# polynomial was fitted in (`Shomate.units`, default 'J/mol/K'); a getter may treat the request for exactly
+# that string differently.  STORED_UNIT names, per instance, the unit string it (or a member species) stores;
+# evaluate() verifies the table against the live object.  UNIT_SWEEP = every stored unit of the alphabet
+# (asked of EVERY instance: its own stored unit as well as the others') plus one per-mass form.
+STORED_UNIT = {'shomate_gas': 'J/mol/K', 'shomate_surf': 'J/mol/K', 'shomate_plain': 'J/mol/K',
+               'shomate_int': 'J/mol/K', 'shomate_kJ': 'kJ/mol/K', 'shomate_cal_surf': 'cal/mol/K',
+               'shomate_eV': 'eV/K', 'rxn_mixed': 'J/mol/K'}
+UNIT_SWEEP = {
+    'mode': ['J/mol/K', 'cal/mol/K', 'eV/K'],
+    'species': ['J/mol/K', 'cal/mol/K', 'eV/K', 'J/g/K'],
+    'empirical': ['J/mol/K', 'cal/mol/K', 'eV/K', 'J/g/K'],
+    'reaction': ['J/mol/K', 'cal/mol/K', 'eV/K'],
+}       # BASE_UNIT ('kJ/mol/K', stored by shomate_kJ) is the unit of the option sweep (c) already
+assert sorted(set(STORED_UNIT.values()) - {BASE_UNIT}) == sorted(UNIT_SWEEP['mode'])
+UNIT_SWEEP_T = {'quick': {'mode': ['T500'], 'species': ['T500'], 'empirical': ['T500', 'arr3'], 'reaction': ['T500']},
+                'thorough': None}        # None = every T shape of the kind
 
 # ---- histories with two objects in one process (added after the seeded changes).  A case is
 # (how, A, B, quantity, form, unit); the sequence is A, B, A again - each value against the object's OWN
@@ -162,7 +185,10 @@ PLANNED_TAGS = ['kind:mode', 'kind:species', 'kind:empirical', 'kind:reaction',
                 'effective:P', 'effective:x', 'effective:S_elements', 'effective:use_references',
                 'effective:verbose', 'effective:include_ZPE', 'effective:kwblock', 'effective:rev',
                 'effective:act', 'effective:del_m', 'effective:del_m=None',
-                'refused:per-mass-without-composition', 'agree:both-forms-raise']
+                'refused:per-mass-without-composition', 'agree:both-forms-raise'] + \
+               ['unit:the-stored-unit-of-the-object(%s)' % u_ for u_ in sorted(set(STORED_UNIT.values()))] + \
+               ['stored-unit:%s+effective:%s' % (w_, o_) for w_ in ('asked', 'another-asked')
+                for o_ in ('P', 'x', 'S_elements', 'kwblock')]
 
 
 def bounds(tier):
@@ -184,6 +210,9 @@ def bounds(tier):
                                                   'edited in place and A once more'),
                 full_product='instance x quantity x unit (x form x rev x act) with default options',
                 option_sweep='instance x quantity (x form x rev x act) x T shape x one option away from the defaults, base unit',
+                unit_sweep=dict(what='instance x quantity (x form x rev x act) x T shape x (no option | one option away '
+                                     'from the defaults) x unit', units=UNIT_SWEEP, stored_unit_of_instance=STORED_UNIT,
+                                T_shapes=UNIT_SWEEP_T[tier] or 'every T shape of the kind'),
                 shards=N_SHARDS)
 
 
@@ -248,6 +277,25 @@ def _gen(tier):
                             if _ndev(c, base) <= k or not _applicable(kind, c):
                                 continue
                             yield kind, c
+        # unit sweep (d): every wrapper x T shape x (no option | one option away from its defaults) x every
+        # unit string stored by some instance of the alphabet (+ one per-mass form) - beyond the deviation
+        # level; the base unit is sweep (c), no option at the base T is the full product
+        T_shapes = UNIT_SWEEP_T[tier][kind] if UNIT_SWEEP_T[tier] else [base['T']] + alts['T']
+        for inst in INSTANCES[kind]:
+            for q in QUANTITIES[kind]:
+                for f, rv, ac in fra:
+                    for unit in UNIT_SWEEP[kind]:
+                        for T in T_shapes:
+                            for opt in single:
+                                if opt is None and T == base['T']:
+                                    continue
+                                c = dict(base)
+                                c.update(inst=inst, q=q, form=f, rev=rv, act=ac, T=T, unit=unit)
+                                if opt is not None:
+                                    c[opt[0]] = opt[1]
+                                if _ndev(c, base) <= k or not _applicable(kind, c):
+                                    continue
+                                yield kind, c
     for c in _gen_pairs(tier):
         yield 'pair', c
 
@@ -300,10 +348,10 @@ def _nasa(name, phase, elements, shift=0., **kw):
                 T_mid=1610.97, T_high=5000., **kw)
 
 
-def _shomate(name, phase, elements, **kw):
+def _shomate(name, phase, elements, a=None, **kw):
     from pmutt.empirical.shomate import Shomate
-    return Shomate(name=name, phase=phase, elements=elements, a=np.array(SHOMATE_A), T_low=250.,
-                   T_high=2000., **kw)
+    return Shomate(name=name, phase=phase, elements=elements, a=np.array(SHOMATE_A) if a is None else a,
+                   T_low=250., T_high=2000., **kw)
 
 
 def _h2():
@@ -411,6 +459,18 @@ def build(name):
         m['kwblock'] = {'H2O2_kwargs': {'P': 5}}
         return Shomate(name='H2O2', phase='G', elements={'H': 2, 'O': 2},
                        a=np.array([30, 7, 7, -3, 1, -251, 223, -242]), T_low=250, T_high=2000), m
+    if name in ('shomate_kJ', 'shomate_cal_surf', 'shomate_eV'):
+        # the same polynomial expressed (and stored) in another unit: every coefficient scales with R
+        from pmutt import constants as c
+        unit = STORED_UNIT[name]
+        a = np.array(SHOMATE_A) * (c.R(unit) / c.R('J/mol/K'))
+        if name == 'shomate_cal_surf':
+            m['elements'] = {'C': 1, 'O': 1}
+            m['kwblock'] = {'O(S)_kwargs': {'x': 0.7}}
+            return _shomate('CO(S)', 'S', {'C': 1, 'O': 1}, a=a, units=unit,
+                            misc_models=[_cov('CO(S)', 'O(S)')]), m
+        m['elements'] = {'H': 2, 'O': 1}
+        return _shomate('H2O', 'G', {'H': 2, 'O': 1}, a=a, units=unit), m
     if name == 'nasa_gas':
         m['elements'] = {'H': 2, 'O': 1}
         return _nasa('H2O', 'G', {'H': 2, 'O': 1}), m
@@ -592,10 +652,13 @@ def deviating_options(c):
 
 def signature(c):
     kind = kind_of(c['inst'])
-    return dict(cls=CLASS_OF.get(c['inst'], c['inst']), inst=c['inst'],
-                getter=getter_names(kind, c['q'], c['form'])[0], unit=unit_family(c['unit']),
-                opts='+'.join(deviating_options(c)) or 'none',
-                T=T_SIG.get(c['T'], 'scalar'))
+    sig = dict(cls=CLASS_OF.get(c['inst'], c['inst']), inst=c['inst'],
+               getter=getter_names(kind, c['q'], c['form'])[0], unit=unit_family(c['unit']),
+               opts='+'.join(deviating_options(c)) or 'none',
+               T=T_SIG.get(c['T'], 'scalar'))
+    if STORED_UNIT.get(c['inst']) == c['unit']:
+        sig['stored_unit'] = 'asked'          # the request names exactly the unit string the object stores
+    return sig
 
 
 def _differs(a, b):
@@ -632,6 +695,10 @@ def evaluate(c, ctx):
     base_u = BASE_UNIT[:-2] if energy else BASE_UNIT
     fam = unit_family(unit)
     sig = signature(c)
+    if getattr(obj, 'units', None) != (STORED_UNIT.get(c['inst']) if kind != 'reaction' else None):
+        raise RuntimeError('STORED_UNIT table out of date for %s: the object stores %r'
+                           % (c['inst'], getattr(obj, 'units', None)))
+    own_unit = STORED_UNIT.get(c['inst']) == unit
 
     # temperature: conditions for both forms
     names, varkw, required = _params(dim)
@@ -667,6 +734,8 @@ def evaluate(c, ctx):
     ctx.trans(_ndev(c, _base(kind)))
     ctx.tag('kind:' + kind)
     ctx.tag('unit:' + fam)
+    if own_unit:
+        ctx.tag('unit:the-stored-unit-of-the-object(%s)' % unit)
     ctx.tag('quantity:' + ('energy-like' if energy else 'entropy-like'))
     ctx.tag('form:' + form.split(':')[0])
 
@@ -778,6 +847,8 @@ def evaluate(c, ctx):
                 interesting = True
                 if len(dev) == 1:
                     ctx.tag('effective:' + dev[0])
+                    if kind == 'empirical' and unit != BASE_UNIT:
+                        ctx.tag('stored-unit:%s+effective:%s' % ('asked' if own_unit else 'another-asked', dev[0]))
     if interesting:
         ctx.nontrivial(tuple(str(c[a]) for a in AXES))
 
@@ -979,6 +1050,7 @@ def run_shard(shard, ctx):
 CLASS_OF = {'sm_gas': 'StatMech', 'sm_ads': 'StatMech', 'sm_ref': 'StatMech', 'sm_cov': 'StatMech',
             'sm_noel': 'StatMech', 'sm_const': 'StatMech', 'sm_int': 'StatMech', 'nasa_plain': 'Nasa',
             'nasa9_plain': 'Nasa9', 'shomate_plain': 'Shomate', 'shomate_int': 'Shomate', 'rxn_int_ts': 'Reaction',
+            'shomate_kJ': 'Shomate', 'shomate_cal_surf': 'Shomate', 'shomate_eV': 'Shomate',
             'nasa_gas': 'Nasa', 'nasa_surf': 'Nasa',
             'nasa_noel': 'Nasa', 'nasa9_gas': 'Nasa9', 'shomate_gas': 'Shomate', 'shomate_surf': 'Shomate',
             'rxn_sm_ts': 'Reaction', 'rxn_sm': 'Reaction', 'rxn_nasa': 'Reaction', 'rxn_mixed': 'Reaction',
@@ -991,7 +1063,9 @@ LEVEL_TEXT = ('Deviation-bounded exhaustive product enumeration on the real gett
               'shape, P, x, S_elements, use_references, verbose, include_ZPE, per-species keyword block, '
               'reaction form, rev, act and del_m that lies within k axes of the base point of each model kind, plus the '
               'full instance x quantity x unit (x form x rev x act) product and a sweep of every wrapper x T shape x single '
-              'option; each case compares get_X(units) with '
+              'option, and the same sweep (with and without an option) in every unit string stored by an object of the '
+              'alphabet (Shomate.units = J/mol/K, kJ/mol/K, cal/mol/K, eV/K; each object is asked in its own stored unit '
+              'and in the others) and in one per-mass unit; each case compares get_X(units) with '
               'get_XoR[T] x R(unit) [x T] [/ M] built independently from pmutt.constants, two units against each '
               'other (library factor and SI factor), and the option shift on both forms; then repeats the call '
               '(after overwriting the returned container), checks that the arguments were left alone and, for array '
